@@ -18,8 +18,8 @@ UPDATE = ('param', 0, 3)
 def notif_sites(ctx, f):
     """(body, path, idx, event, variant, resolved value) for every Runtime::notify call."""
     out = []
-    for b in f.bodies:
-        if not any(strip_generics(t['decl']) == 'runtime::Runtime::notify' for _, t in f.calls(b)):
+    for b in f.analysed_bodies():
+        if not any(strip_generics(t['decl']) == 'runtime::Runtime::notify' for _, t in f.calls_deep(b)):
             continue
         if b.nname.startswith('<&mut R as'):
             continue
@@ -59,7 +59,7 @@ def r1_sites(ctx, f, rep, sites):
             for s in bl['stmts']:
                 if 'rv' in s and s['rv']['k'] == 'aggregate' and strip_generics(s['rv']['name']) == NOTIF:
                     vn = s['rv']['variant']
-                    if EXPECT_SITE.get(vn) != b.nname:
+                    if [EXPECT_SITE.get(vn)] != f.attributed(b):
                         rep.violation('C08-R1', b.nname, 'notification-aggregate:' + vn,
                                       'Notification::%s constructed outside %s' % (vn, EXPECT_SITE.get(vn)), site=s['span'])
 
